@@ -477,6 +477,8 @@ def process_unit(path, meta, update_mirror=False):
             merged, exact = merge(new_lines, ctx, ann)
             fid = "%s|%s|%s" % (file, norm_header(header) if wrap else "-", name)
             emitted = add_canary(merged) if (fid in CANARY and mode == "body") else merged
+            if fid in STRIP and mode == "body":
+                emitted = strip_body_annotations(merged); log.add("HINTS-DROPPED")
             start_line = len(out) + 2
             out.append(l); out.extend(emitted); out.append("//@@ end")
             mirror_out.append(l); mirror_out.extend(merged); mirror_out.append("//@@ end")
@@ -535,6 +537,27 @@ def process_unit(path, meta, update_mirror=False):
     return out
 
 CANARY = set()
+STRIP = set()   # function ids whose body annotations are dropped (contract kept): fallback when hints no longer compile
+
+def strip_body_annotations(merged):
+    out = []
+    seen_body = False
+    skip = False
+    for l in merged:
+        t = l.strip()
+        if not seen_body:
+            out.append(l)
+            if t == '{': seen_body = True
+            continue
+        if t == '//@+': skip = True; continue
+        if t == '//@-': skip = False; continue
+        if skip:
+            # keep loop `decreases`/`invariant` headers? no: hints are dropped wholesale; loops then need no decreases only if absent -> keep decreases lines
+            if t.startswith('decreases'):
+                out += ['//@+', l, '//@-']
+            continue
+        out.append(l)
+    return out
 
 def add_canary(merged):
     """vacuity canary: `assert(false)` as the first statement of the body (checks that the entry of the
